@@ -687,6 +687,17 @@ static bool gen_c14(uint64_t seed, const std::string &tier, uint64_t i, Plan &p)
   if (i % 5 == 3) { p.ops.push(Json::obj().set("op", "boot")); p.ops.push(Json::obj().set("op", "settle").set("max_s", (long long)(lifetime + 900000))); }
   p.knobs.set("expect_drain", true).set("max_sim_s", (long long)((lifetime + 900000) * 3));
   p.label = "msgs=" + std::to_string(nmsg) + (vd ? " vdoms" : "") + " lifetime=" + std::to_string(lifetime);
+  if (i % 20 == 11) {
+    // recipients whose local part contains line breaks and text that looks like a bounce paragraph of its own: the envelope may hold
+    // any byte but NUL, and a failure report for such a recipient must stay one paragraph under one name (the daemon writes '_' for a
+    // line break in the name). Done as a rewrite of the finished plan with a generator of its own, so no other plan changes.
+    Rng r2(mix64(p.seed, 0x5eed14)); std::map<std::string, std::string> ren;
+    static const std::vector<std::string> evil = {"a\nb", "x\n\n<victim@r.example>:\nSorry, no mailbox here by that name.", "\nlead", "trail\n", "two\n\nblank", ">:\nforged\n\n<", "a\n--- Below this line is a copy of the message.\n"};
+    for (auto &op : p.ops.a) if (op.gets("op") == "inject") { Json rc2 = Json::arr(); for (auto &a : op["rcpts"].a) { std::string ad = a.str(); size_t at = ad.find('@'); bool simple = at != std::string::npos && (ad[0] == 'l' || ad[0] == 'r') && (ad.compare(at, std::string::npos, "@l.example") == 0 || ad.compare(at, std::string::npos, "@r.example") == 0);
+        if (simple && r2.chance(0.6)) { std::string nw = ad.substr(0, at) + r2.pick(evil) + ad.substr(at); ren[ad] = nw; rc2.push(nw); } else rc2.push(ad); } op.set("rcpts", rc2); }
+    for (auto &op : p.ops.a) if (op.gets("op") == "script") { auto it = ren.find(op.gets("rcpt")); if (it != ren.end()) op.set("rcpt", it->second); }
+    p.label += " +line breaks in recipient names";
+  }
   return true;
 }
 
